@@ -382,6 +382,20 @@ pub fn write_replay(case: &Case, v: &Violation, log_hash: u64, verif_seed: u64, 
     path
 }
 
+/// Long hex blobs (oversized random datagrams) are abbreviated in evidence samples.
+fn shorten_strings(v: &mut Value) {
+    match v {
+        Value::String(s) if s.len() > 300 => {
+            let n = s.len();
+            s.truncate(120);
+            s.push_str(&format!("...({} characters in all)", n));
+        }
+        Value::Array(a) => a.iter_mut().for_each(shorten_strings),
+        Value::Object(o) => o.values_mut().for_each(shorten_strings),
+        _ => {}
+    }
+}
+
 pub struct CheckResult {
     pub exit: i32,
 }
@@ -504,7 +518,9 @@ pub fn run_check(def: &CheckDef, tier: Tier, verif_seed: u64) -> i32 {
                     c.steps.truncate(40);
                     c.steps.push(json!(format!("... {extra} more steps")));
                 }
-                samples.push(json!({"run_index": i, "case": c}));
+                let mut v = json!({"run_index": i, "case": c});
+                shorten_strings(&mut v);
+                samples.push(v);
             }
         }
         per_batch.push(json!({
